@@ -1,0 +1,120 @@
+//! Instrumented `Mutex` used only for verification builds (`--cfg vls_verif`).
+//!
+//! This is a thin wrapper over `std::sync::Mutex` with the same `new` / `lock`
+//! surface.  An optional process-global observer is told about every lock
+//! attempt, acquisition and release, so that an external harness can record
+//! lock orders or drive a controlled thread schedule.  With no observer
+//! installed the wrapper behaves exactly like the standard mutex.
+
+use core::fmt;
+use core::ops::{Deref, DerefMut};
+use core::sync::atomic::{AtomicBool, Ordering};
+use std::sync::{Arc, LockResult, PoisonError, RwLock};
+
+/// Observer of lock operations
+pub trait LockObserver: Send + Sync + 'static {
+    /// Called before the calling thread tries to acquire the lock
+    fn before_lock(&self, class: &'static str, addr: usize);
+    /// Called after the calling thread acquired the lock
+    fn after_lock(&self, class: &'static str, addr: usize);
+    /// Called after the calling thread released the lock.  Must not panic.
+    fn after_unlock(&self, class: &'static str, addr: usize);
+}
+
+static ENABLED: AtomicBool = AtomicBool::new(false);
+static OBSERVER: RwLock<Option<Arc<dyn LockObserver>>> = RwLock::new(None);
+
+/// Install (or remove) the process-global lock observer
+pub fn set_lock_observer(observer: Option<Arc<dyn LockObserver>>) {
+    let mut slot = OBSERVER.write().unwrap_or_else(|e| e.into_inner());
+    ENABLED.store(observer.is_some(), Ordering::SeqCst);
+    *slot = observer;
+}
+
+fn observer() -> Option<Arc<dyn LockObserver>> {
+    if !ENABLED.load(Ordering::Relaxed) {
+        return None;
+    }
+    OBSERVER.read().unwrap_or_else(|e| e.into_inner()).clone()
+}
+
+/// Instrumented mutex
+pub struct Mutex<T: ?Sized> {
+    inner: std::sync::Mutex<T>,
+}
+
+/// Guard of the instrumented mutex
+#[must_use = "if unused the Mutex will immediately unlock"]
+pub struct MutexGuard<'a, T: ?Sized + 'a> {
+    inner: Option<std::sync::MutexGuard<'a, T>>,
+    class: &'static str,
+    addr: usize,
+}
+
+impl<T> Mutex<T> {
+    /// Create a new mutex
+    pub fn new(t: T) -> Mutex<T> {
+        Mutex { inner: std::sync::Mutex::new(t) }
+    }
+}
+
+impl<T: ?Sized> Mutex<T> {
+    /// Acquire the mutex
+    pub fn lock(&self) -> LockResult<MutexGuard<'_, T>> {
+        let class = core::any::type_name::<T>();
+        let addr = self as *const Self as *const u8 as usize;
+        let obs = observer();
+        if let Some(o) = obs.as_ref() {
+            o.before_lock(class, addr);
+        }
+        let res = self.inner.lock();
+        if let Some(o) = obs.as_ref() {
+            o.after_lock(class, addr);
+        }
+        match res {
+            Ok(g) => Ok(MutexGuard { inner: Some(g), class, addr }),
+            Err(p) =>
+                Err(PoisonError::new(MutexGuard { inner: Some(p.into_inner()), class, addr })),
+        }
+    }
+}
+
+impl<T: Default> Default for Mutex<T> {
+    fn default() -> Self {
+        Mutex::new(T::default())
+    }
+}
+
+impl<T: ?Sized + fmt::Debug> fmt::Debug for Mutex<T> {
+    fn fmt(&self, f: &mut fmt::Formatter<'_>) -> fmt::Result {
+        self.inner.fmt(f)
+    }
+}
+
+impl<T: ?Sized> Deref for MutexGuard<'_, T> {
+    type Target = T;
+    fn deref(&self) -> &T {
+        self.inner.as_ref().expect("guard").deref()
+    }
+}
+
+impl<T: ?Sized> DerefMut for MutexGuard<'_, T> {
+    fn deref_mut(&mut self) -> &mut T {
+        self.inner.as_mut().expect("guard").deref_mut()
+    }
+}
+
+impl<T: ?Sized + fmt::Debug> fmt::Debug for MutexGuard<'_, T> {
+    fn fmt(&self, f: &mut fmt::Formatter<'_>) -> fmt::Result {
+        (**self).fmt(f)
+    }
+}
+
+impl<T: ?Sized> Drop for MutexGuard<'_, T> {
+    fn drop(&mut self) {
+        drop(self.inner.take());
+        if let Some(o) = observer() {
+            o.after_unlock(self.class, self.addr);
+        }
+    }
+}
